@@ -818,3 +818,95 @@ class SubpartitionOpSpec(KernelSpec):
 
     def native_view(self, inst, shape, v, st):
         return [(p.fields[0], p.fields[1]) for p in elems_of(v)]
+
+
+class MergeDedupPartitionedSpec(MergeDedupSpec):
+    """merge_deduplicate_partitioned(partitioning, l, r): inside every first-key run the (per-side strictly increasing)
+    second group keys are merged into their strictly increasing union; ops replay as in merge_deduplicate; a key of one run
+    is never merged with an equal second key of another run"""
+    fn_path = "engine::operators::merge_deduplicate_partitioned::merge_deduplicate_partitioned"
+    diff_cases = 2
+
+    def instantiations(self, tier):
+        kt = [("i64", "CmpLessThan", "lt")] if tier == "quick" else [("i64", "CmpLessThan", "lt"), ("u8", "CmpLessThan", "lt"), ("u32", "CmpLessThan", "lt")]
+        return [{"T": t, "C": c, "nat": f"merge_dedup_part_{t}_{s}"} for t, c, s in kt]
+
+    def shapes(self, tier, inst):
+        return GROUPINGS_QUICK + [((1, 1), (1, 1))] if tier == "quick" else GROUPINGS_THOROUGH
+
+    def sym_inputs(self, inst, shape):
+        ty = inst["T"]
+        order = Order(ty, inst["C"] == "CmpGreaterThan")
+        n = sum(a for a, b in shape)
+        m = sum(b for a, b in shape)
+        l = [sym(ty, f"l{i}") for i in range(n)]
+        r = [sym(ty, f"r{i}") for i in range(m)]
+        pre = []
+        i = j = 0
+        for a, b in shape:
+            pre += sorted_pre(order, l[i:i + a], strict=True) + sorted_pre(order, r[j:j + b], strict=True)
+            i += a
+            j += b
+        return {"l": l, "r": r}, pre
+
+    def make_args(self, inst, shape, inp):
+        return [slice_arg([premerge(a, b) for a, b in shape]), slice_arg(inp["l"]), slice_arg(inp["r"])]
+
+    def post(self, inst, shape, inp, value, state=None):
+        order = Order(inst["T"], inst["C"] == "CmpGreaterThan")
+        l, r = inp["l"], inp["r"]
+        res = elems_of(value.fields[0])
+        ops = [mop_index(o) for o in elems_of(value.fields[1])]
+        conds = []
+        ok = len(ops) == len(l) + len(r)
+        i0 = j0 = 0
+        k = -1
+        p = 0
+        for a, b in shape:
+            if not ok:
+                break
+            i, j = i0, j0
+            first_k = k + 1
+            for op in ops[p:p + a + b]:
+                if op == 0:
+                    k += 1
+                    if i >= i0 + a or k >= len(res):
+                        ok = False
+                        break
+                    conds.append((f"TakeLeft copies left[{i}]", binop("Eq", res[k], l[i])))
+                    i += 1
+                elif op == 1:
+                    k += 1
+                    if j >= j0 + b or k >= len(res):
+                        ok = False
+                        break
+                    conds.append((f"TakeRight copies right[{j}]", binop("Eq", res[k], r[j])))
+                    j += 1
+                else:
+                    if j >= j0 + b or k < first_k:
+                        ok = False          # MergeRight into a row of the previous run (or nothing)
+                        break
+                    conds.append((f"MergeRight only when right[{j}] equals the last output key of the same run", binop("Eq", res[k], r[j])))
+                    j += 1
+            if ok and not (i == i0 + a and j == j0 + b):
+                ok = False
+            for x, y in zip(res[first_k:k + 1], res[first_k + 1:k + 1]):
+                conds.append(("second group keys strictly increasing inside a run (each distinct key exactly once)", order.before(x, y)))
+            p += a + b
+            i0 += a
+            j0 += b
+        conds.append(("ops consume every run of both inputs completely and produce every output row", B(ok and k + 1 == len(res))))
+        return conds
+
+    def random_inputs(self, rng, inst, shape):
+        desc = inst["C"] == "CmpGreaterThan"
+        l, r = [], []
+        for a, b in shape:
+            l += rnd_sorted(rng, inst["T"], a, desc, strict=True)
+            r += rnd_sorted(rng, inst["T"], b, desc, strict=True)
+        return {"l": l, "r": r}
+
+    def native(self, inst, shape, inp):
+        if inp is None:
+            return (inst["nat"], [])
+        return (inst["nat"], [";".join(f"{a}:{b}" for a, b in shape), fmt_ints(inp["l"]), fmt_ints(inp["r"])])
